@@ -8,13 +8,15 @@ import (
 	"strconv"
 	"strings"
 	"sync"
+	"time"
 )
 
 /* Fault points for verification harnesses that run nodes as separate
  * processes. VERIF_CLUSTER_FAULTS holds a comma separated list of
  * point:index:action[:marker] entries, e.g. "recv-chunk:1:error" or
  * "send-chunk:2:exit:/tmp/fired". Actions: error (the call fails), exit (the
- * process dies on the spot). With a marker file the fault fires only while the
+ * process dies on the spot), sleepN (the call pauses for N milliseconds and
+ * then carries on, e.g. sleep1500). With a marker file the fault fires only while the
  * file does not exist and creates it when it fires, i.e. once across restarts. */
 
 type verifFault struct {
@@ -58,6 +60,12 @@ func verifPoint(point string, index int) error {
 		fmt.Fprintf(os.Stderr, "VERIF-FAULT %s %d %s\n", point, index, f.action)
 		if f.action == "exit" {
 			os.Exit(17)
+		}
+		if ms, ok := strings.CutPrefix(f.action, "sleep"); ok {
+			if n, err := strconv.Atoi(ms); err == nil {
+				time.Sleep(time.Duration(n) * time.Millisecond)
+			}
+			return nil
 		}
 		return fmt.Errorf("injected fault at %s %d", point, index)
 	}
